@@ -268,8 +268,31 @@ func runC07(e *Engine, g G, o RunOpt) RunInfo {
 					chans[r.ID] = ch
 					read := func(limit time.Duration) {
 						got := &c07Got{req: r.ID}
+						// a value that is already there wins over an ended context (a
+						// select with several ready cases would be decided by the runtime)
+						var v stanza.IQ
+						var ok, have bool
 						select {
-						case v, ok := <-ch:
+						case v, ok = <-ch:
+							have = true
+						default:
+						}
+						if !have {
+							select {
+							case v, ok = <-ch:
+								have = true
+							case <-ctx.Done():
+								e.Yield("app.ctxdone")
+								e.Logf("app.ctxdone", "%s", r.ID)
+								return
+							case <-time.After(limit):
+								e.Yield("app.readtimeout")
+								e.Logf("app.readtimeout", "%s", r.ID)
+								return
+							}
+						}
+						switch {
+						case have:
 							e.Yield("app.read")
 							if !ok {
 								e.Logf("app.chan", "%s: channel closed without a value", r.ID)
@@ -295,12 +318,6 @@ func runC07(e *Engine, g G, o RunOpt) RunInfo {
 									return
 								}
 							}
-						case <-ctx.Done():
-							e.Yield("app.ctxdone")
-							e.Logf("app.ctxdone", "%s", r.ID)
-						case <-time.After(limit):
-							e.Yield("app.readtimeout")
-							e.Logf("app.readtimeout", "%s", r.ID)
 						}
 					}
 					switch r.Read {
